@@ -134,6 +134,14 @@ Proof.
     destruct (Nat.ltb_spec (i - 1) (commit (st s f))); [exact E1 | lia].
   - (* crash *)
     rewrite nth_error_firstn. destruct (Nat.ltb_spec (i - 1) (flushed (st s n0))); [reflexivity | lia].
+  - (* install *)
+    pose proof (install_keeps_commit V s f K K2 Hs Hv Hl H3 H4 H6) as Hk.
+    pose proof (prefix_firstn_eq _ _ Hk) as E. rewrite firstn_length_le in E by lia.
+    assert (E1 : nth_error (firstn (commit (st s f))
+                              (if prefixb K (log (st s f)) then log (st s f) else K)) (i - 1)
+                 = nth_error (firstn (commit (st s f)) (log (st s f))) (i - 1)) by (rewrite E; reflexivity).
+    rewrite !nth_error_firstn in E1.
+    destruct (Nat.ltb_spec (i - 1) (commit (st s f))); [exact E1 | lia].
 Qed.
 
 (* ---- C03: state-machine safety ---- *)
@@ -184,14 +192,14 @@ Qed.
 
 (* the commit index of a node only grows, except when the node restarts *)
 Lemma commit_monotone_sec s s' n :
-  step V s s' -> (commit (st s n) <= commit (st s' n))%nat \/ s' = do_crash n s.
+  step V s s' -> (commit (st s n) <= commit (st s' n))%nat \/ exists c, s' = do_crash n c s.
 Proof.
   intros Hstep.
   destruct Hstep; unfold_do; simpl;
     try (left; match goal with |- context [upd _ ?x _ n] => upd_case n x end; simpl; lia);
     try (left; lia).
   - left. upd_case n f; simpl; [apply commit_of_ge | lia].
-  - destruct (N.eq_dec n n0) as [->|Hne]; [right; reflexivity|].
+  - destruct (N.eq_dec n n0) as [->|Hne]; [right; exists c; reflexivity|].
     left. rewrite upd_neq by exact Hne. lia.
 Qed.
 
@@ -274,7 +282,7 @@ Theorem applied_agree : forall V s n1 n2 i e1 e2,
 Proof. exact applied_agree_sec. Qed.
 
 Theorem commit_monotone : forall V s s' n,
-  step V s s' -> (commit (st s n) <= commit (st s' n))%nat \/ s' = do_crash n s.
+  step V s s' -> (commit (st s n) <= commit (st s' n))%nat \/ exists c, s' = do_crash n c s.
 Proof. exact commit_monotone_sec. Qed.
 
 Theorem committed_durable_on_majority : forall V s tc i e,
